@@ -1,16 +1,30 @@
 # C07 — rendering is a pure, deterministic function of template and data.
 #
-# Every generated (template, data) pair is rendered by the real engine: twice on one engine, on a
-# second engine, on a third engine after a prefix of other renders, once more with freshly built
-# equal data, and in three fresh processes (own map hash seeds).  The harness deep-compares the
-# caller's data with a pristine copy after the renders.  The judge (Run/Judge_C07.v) demands that
-# all outputs are byte-identical and the data untouched, and - for the modelled template shapes -
-# that they equal the prediction of Models/Purity.v.
+# Every generated (template, data) pair is rendered by the real engine in processes of its own: in one
+# process as the very first render, again on the same engine, on a second engine, then - after a HISTORY
+# of other renders (other templates, the same template with other data, on any of three engine
+# instances) - on a third engine, with freshly built equal data, and on an engine created only then; and
+# once in each of three more processes that render nothing else (own map hash seeds).  The harness
+# deep-compares the caller's data with a pristine copy after the renders.  The judge (Run/Judge_C07.v)
+# demands that all outputs are byte-identical and the data untouched, and - where a model covers the
+# template - that they equal its prediction: Models/Purity.v for the 12 order-sensitive shapes, the
+# executor model (Pug.Compile + Tmpl.Exec) for the templates given as pug trees.
+#
+# Template families:
+#   shapes   the 12 order-sensitive sites (each / &attributes / JSON.stringify / Object.keys / ...)
+#   acc      STATE BUILT DURING A RENDER: an object or array created by a literal ({} [] {zz: 1} ..) is
+#            filled in loops and under conditions with keys and values taken from the data, then
+#            enumerated / serialised / read at keys this render may not have set
+#   free     statement lists mutating data-derived objects, literals, $global, mixin attributes
+# A template is stored either as raw pug AST JSON (list of nodes) or as {"tree": <tmpl.py pug tuples>};
+# only the tree form is handed to the executor model.
 import json
 from common import *
 import tmpl
 
 FRESH_PROCESSES = 3
+FULL_RENDERS = 6          # r0..r5 of harness/c07.go
+STD_FUNCS = (b"Math", b"JSON", b"Object", b"stripTags", b"parseInt")   # harness/engine.go stdFuncs
 
 # ------------------------------------------------------------------ data
 # ('nil',) ('bool',b) ('int',n) ('str',bytes) ('arr',[v]) ('strs',[bytes]) ('ints',[n])
@@ -263,6 +277,29 @@ def g_data(rng, tier):
     return d
 
 
+def lower_nested(v, top=True):
+    """the same data with every map key below the top level starting in lower case (entries whose lowered key
+    is already taken are dropped): no object of such data holds two keys that differ only in the case of the
+    first letter, whatever a template merges - the executor model's domain (Run/Judge_C07.v fold_clash)"""
+    t = v[0]
+    if t == 'arr':
+        return ('arr', [lower_nested(x, False) for x in v[1]])
+    if t in ('map', 'smap', 'imap'):
+        out, seen = [], set()
+        for k, x in v[1]:
+            k2 = k if top else k[:1].lower() + k[1:]
+            if k2 in seen:
+                continue
+            seen.add(k2)
+            out.append((k2, lower_nested(x, False) if t == 'map' else x))
+        return (t, out)
+    if t in ('rec', 'prec'):
+        return (t, {k: lower_nested(x, False) for k, x in v[1].items()})
+    if t == 'ptr':
+        return ('ptr', lower_nested(v[1], top))
+    return v
+
+
 # ------------------------------------------------------------------ templates
 def code(src, buffer=False, esc=True, inline=False):
     return {"type": "Code", "val": src, "buffer": buffer, "mustEscape": esc, "isInline": inline}
@@ -326,28 +363,117 @@ def shape_coq(sh):
              "setkey": b"ShSetKey", "objassign": b"ShObjAssign"}
     if k == "var":
         return b"(Some (ShVar " + cq_bytes(sh[1]) + b"))"
-    if k == "free":
+    if k in ("free", "acc"):
         return b"None"
     return b"(Some " + names[k] + b")"
 
 
-# statements for the free-form (oracle-only) mutation-heavy templates
-# (no statement may close a reference cycle - items never refers to a map, m never to o: printing a
-#  cyclic object recurses until the Go runtime kills the process with a stack overflow)
+# ---- pug trees (tmpl.py tuple forms; only str / int / bool / None / lists inside, so that a tree
+# ---- survives the JSON round trip of replays and corpus files unchanged)
+def I(x):
+    return ('id', x)
+
+
+def D(e, *names):
+    for n in names:
+        e = ('dot', e, n)
+    return e
+
+
+def CALL(f, *args):
+    return ('call', f, list(args))
+
+
+def MC(obj, meth, *args):
+    return CALL(D(obj, meth), *args)
+
+
+def N(n):
+    return ('num', n)
+
+
+def S(x):
+    return ('str', x)
+
+
+def ASG(l, r):
+    return ('expr', ('assign', l, r))
+
+
+def VAR(x, e):
+    return ('vars', [('var', x, e)])
+
+
+def EX(e):
+    return ('expr', e)
+
+
+def t_stmt(st):
+    """- <statement>"""
+    return ('code', [st], True, False)
+
+
+def t_print(e, esc=True, inline=False):
+    """= e  /  != e"""
+    return ('code', [('expr', e)], esc, inline)
+
+
+def t_text(x):
+    return ('text', x)
+
+
+def t_each_kv(obj):
+    return ('each', 'v', 'k', obj, [t_text("["), t_print(I('k'), True, True), t_text("="), t_print(I('v'), True, True),
+                                    t_text("]")])
+
+
+def t_tag(name, attrs=(), ablocks=(), body=()):
+    return ('tag', name, False, [(a, v, True) for a, v in attrs], list(ablocks), list(body))
+
+
+def t_if(test, body):
+    return ('cond', test, list(body), None)
+
+
+def JSONS(e):
+    return MC(I('JSON'), 'stringify', e)
+
+
+def OKEYS(e):
+    return MC(I('Object'), 'keys', e)
+
+
+def OASSIGN(*a):
+    return MC(I('Object'), 'assign', *a)
+
+
+# statements for the free-form mutation-heavy templates
+# (no statement may close a reference cycle - items never refers to a map, m never to o, a literal never
+#  to itself: printing a cyclic object recurses until the Go runtime kills the process with a stack overflow)
+m_, o_, items_ = I('m'), I('o'), I('items')
 FREE_STMTS = [
-    "items.push(9)", "items.sort()", "items.pop()", "items.shift()", "items.unshift('u')", "var sp = items.splice(1)",
-    "var sl = items.slice(1)", "m.k = 1", "m.a = items", "o.z = items", "var u = Object.assign(m, o)",
-    "var u2 = Object.assign(o, m)", "var ks = Object.keys(m)", "var ko = Object.keys(o)", "m.zz = 'w'",
-    "var g = {x: 1, y: items}", "var u3 = Object.assign(g, m)", "items.push('s')", "foo = 1",
-    "var foo = 'shadow'", "title = items", "o.items = items", "var x = m.a", "var y = m.attrs", "y.q = 1",
-    "var tg = m.tags", "tg.sort()", "tg.push('t')", "var it = m.items", "it.push(1)", "it.sort()", "m.name = 'nn'",
-    "$global.c = 1", "$global.it = items",
+    EX(MC(items_, 'push', N(9))), EX(MC(items_, 'sort')), EX(MC(items_, 'pop')), EX(MC(items_, 'shift')),
+    EX(MC(items_, 'unshift', S('u'))), VAR('sp', MC(items_, 'splice', N(1))), VAR('sl', MC(items_, 'slice', N(1))),
+    ASG(D(m_, 'k'), N(1)), ASG(D(m_, 'a'), items_), ASG(D(o_, 'z'), items_), VAR('u', OASSIGN(m_, o_)),
+    VAR('u2', OASSIGN(o_, m_)), VAR('ks', OKEYS(m_)), VAR('ko', OKEYS(o_)), ASG(D(m_, 'zz'), S('w')),
+    VAR('g', ('obj', [('x', N(1)), ('y', items_)])), VAR('u3', OASSIGN(I('g'), m_)), EX(MC(items_, 'push', S('s'))),
+    ASG(I('foo'), N(1)), VAR('foo', S('shadow')), ASG(I('title'), items_), ASG(D(o_, 'items'), items_),
+    VAR('x', D(m_, 'a')), VAR('y', D(m_, 'attrs')), ASG(D(I('y'), 'q'), N(1)), VAR('tg', D(m_, 'tags')),
+    EX(MC(I('tg'), 'sort')), EX(MC(I('tg'), 'push', S('t'))), VAR('it', D(m_, 'items')), EX(MC(I('it'), 'push', N(1))),
+    EX(MC(I('it'), 'sort')), ASG(D(m_, 'name'), S('nn')), ASG(D(I('global'), 'c'), N(1)),
+    ASG(D(I('global'), 'it'), items_),
+    # objects and arrays created by literals, filled from the data
+    VAR('e', ('obj', [])), VAR('e', ('obj', [])), VAR('l', ('arr', [])), ASG(D(I('e'), 'k'), D(m_, 'a')),
+    ASG(('idx', I('e'), D(m_, 'name')), N(1)), ASG(('idx', I('e'), ('idx', items_, N(0))), S('i0')),
+    ASG(D(I('e'), 'its'), items_), EX(MC(I('l'), 'push', D(o_, 'a'))), EX(MC(I('l'), 'push', D(items_, 'length'))),
+    VAR('e2', OASSIGN(('obj', []), o_)), ASG(D(I('global'), 'e'), I('e')),
 ]
 FREE_PRINTS = [
-    code("JSON.stringify(m)", True, False), code("JSON.stringify(o)", True, False),
-    code("JSON.stringify(items)", True, False), code("items.join(',')", True, True), code("m", True, True),
-    code("o", True, True), code("Object.keys(m).join(',')", True, True), code("foo", True, True),
-    code("title", True, True), code("items.length", True, True), code("Object.keys(o).join('|')", True, True),
+    t_print(JSONS(m_), False), t_print(JSONS(o_), False), t_print(JSONS(items_), False),
+    t_print(MC(items_, 'join', S(','))), t_print(m_), t_print(o_), t_print(MC(OKEYS(m_), 'join', S(','))),
+    t_print(I('foo')), t_print(I('title')), t_print(D(items_, 'length')), t_print(MC(OKEYS(o_), 'join', S('|'))),
+    t_print(JSONS(I('e')), False), t_print(JSONS(I('l')), False), t_print(D(I('global'), 'c')),
+    t_print(JSONS(I('e2')), False), t_print(D(I('e'), 'k')),
 ]
 
 
@@ -355,33 +481,110 @@ def free_nodes(rng):
     nodes = []
     for _ in range(rng.randint(1, 7)):
         r = rng.random()
-        if r < 0.55:
-            nodes.append(code(rng.choice(FREE_STMTS)))
-        elif r < 0.75:
+        if r < 0.57:
+            nodes.append(t_stmt(rng.choice(FREE_STMTS)))
+        elif r < 0.77:
             nodes.append(rng.choice(FREE_PRINTS))
-        elif r < 0.85:
-            nodes.append(each_kv(rng.choice(["m", "o"])))
-        elif r < 0.92:
-            nodes.append(tag("p", attrs=[("x", "'1'")], ablocks=[rng.choice(["m", "o"])]))
-        elif r < 0.96:
-            nodes.append(code("for (k in %s) { k }" % rng.choice(["m", "o"])))
+        elif r < 0.88:
+            nodes.append(t_each_kv(rng.choice([m_, o_, I('e')])))
+        elif r < 0.95:
+            nodes.append(t_tag("p", attrs=[("x", S('1'))], ablocks=[rng.choice(["m", "o"])]))
         else:
-            nodes.append({"type": "Mixin", "name": "mx", "args": None, "call": False, "attrs": [], "attributeBlocks": [],
-                          "block": block([tag("i", ablocks=["attributes"])])})
             names = rng.sample(["a", "b", "c", "d", "e", "f", "g"], rng.randint(2, 6))
-            nodes.append({"type": "Mixin", "name": "mx", "args": "", "call": True, "attributeBlocks": [], "block": None,
-                          "attrs": [{"name": a, "val": "'%d'" % i, "mustEscape": True} for i, a in enumerate(names)]})
+            nodes.append(('mixin', 'mx', [], [t_tag("i", ablocks=["attributes"])]))
+            nodes.append(('call', 'mx', [], [(a, S(str(i)), True) for i, a in enumerate(names)], []))
     for _ in range(rng.randint(1, 3)):
         nodes.append(rng.choice(FREE_PRINTS))
+    # `e[i] = x` on a variable that is not set yet makes Go print the failed action as text (deterministic, but no
+    # model covers it): most of the time the literal comes first
+    first = [i for i, n in enumerate(nodes) if n[0] == 'code' and n[1][0][0] == 'expr' and n[1][0][1][0] == 'assign'
+             and n[1][0][1][1][0] == 'idx']
+    if first and rng.random() < 0.9:
+        nodes.insert(rng.randint(0, first[0]), t_stmt(VAR('e', ('obj', []))))
+    return nodes
+
+
+# ---- acc: state built during one render.  Whatever such a template prints is determined by the literal it
+# ---- starts from and by the data of THIS render; anything a render leaves behind in an object that a later
+# ---- literal evaluates to, or in any other place that outlives the render, shows up here.
+def acc_nodes(rng):
+    acc = I('acc')
+    r = rng.random()
+    kind = 'map'
+    if r < 0.45:
+        lit = ('obj', [])
+    elif r < 0.55:
+        lit = ('obj', [('zz', N(1))])
+    elif r < 0.62:
+        lit = ('obj', [('a', S('x')), ('k', N(2))])
+    elif r < 0.72:
+        lit = OASSIGN(('obj', []), o_)
+    elif r < 0.92:
+        lit, kind = ('arr', []), 'arr'
+    else:
+        lit, kind = ('arr', [S('u')]), 'arr'
+    nodes = [t_stmt(VAR('acc', lit))]
+    v, k = I('v'), I('k')
+    for _ in range(rng.choice([1, 1, 1, 2])):
+        src = rng.choice([items_, items_, m_, o_, OKEYS(m_)])
+        body = []
+        for _ in range(rng.choice([1, 1, 2])):
+            if kind == 'map':
+                # (pugjs cannot load `x[i] = y` with a bare identifier on the right: the right-hand sides are
+                #  literals and compound expressions)
+                st = rng.choice([ASG(('idx', acc, v), ('bool', True)), ASG(('idx', acc, v), ('bin', '+', k, S(''))),
+                                 ASG(('idx', acc, k), ('arr', [v])), ASG(('idx', acc, k), ('cond', v, v, N(0))),
+                                 ASG(('idx', acc, ('bin', '+', S('p'), v)), N(1)),
+                                 ASG(('idx', acc, v), D(items_, 'length')), ASG(('idx', acc, v), N(1)),
+                                 ASG(D(acc, 'last'), v)])
+            else:
+                st = rng.choice([EX(MC(acc, 'push', v)), EX(MC(acc, 'push', k)), EX(MC(acc, 'unshift', v)),
+                                 EX(MC(acc, 'push', v))])
+            if rng.random() < 0.25:
+                test = rng.choice([v, ('bin', '==', v, S('a')), ('bin', '>', k, N(0)), ('un', '!', v)])
+                body.append(t_if(test, [t_stmt(st)]))
+            else:
+                body.append(t_stmt(st))
+        nodes.append(('each', 'v', 'k', src, body))
+    if rng.random() < 0.4:
+        test = rng.choice([I('foo'), I('title'), I('n'), I('count'), D(m_, 'a'), D(items_, 'length'), D(o_, 'k'),
+                           ('bin', '>', D(items_, 'length'), N(2))])
+        st = ASG(D(acc, 'flag'), N(1)) if kind == 'map' else EX(MC(acc, 'push', S('f')))
+        nodes.append(t_if(test, [t_stmt(st)]))
+    if rng.random() < 0.2:
+        nodes.append(t_stmt(VAR('b', ('obj', []))))
+        nodes.append(t_stmt(ASG(D(I('b'), 'inner'), acc)))
+        nodes.append(t_print(JSONS(I('b')), False))
+    if kind == 'map':
+        prints = [t_each_kv(acc), t_print(JSONS(acc), False), t_print(MC(OKEYS(acc), 'join', S(','))),
+                  t_print(D(acc, 'zz')), t_print(D(acc, 'flag')), t_print(D(acc, 'a')), t_print(acc),
+                  t_each_kv(acc), t_print(JSONS(acc), False)]
+    else:
+        prints = [t_print(MC(acc, 'join', S(','))), t_print(JSONS(acc), False), t_print(D(acc, 'length')),
+                  t_each_kv(acc), t_print(JSONS(acc), False)]
+    for p_ in rng.sample(prints, rng.randint(1, 3)):
+        nodes.append(p_)
     return nodes
 
 
 SHAPES = ["each", "attrs", "json", "keys", "forin", "var", "keys_each", "assign_each", "push", "sort", "setkey",
           "objassign"]
+TREE_FAMILIES = ("acc", "free")
 
 
 def ast(nodes):
     return json.dumps(block(nodes)).encode()
+
+
+def tpl_ast(entry):
+    """pug AST JSON nodes of a stored template"""
+    if isinstance(entry, dict):
+        return [tmpl.pug_json(n) for n in entry["tree"]]
+    return entry
+
+
+def tpl_tree(entry):
+    return entry["tree"] if isinstance(entry, dict) else None
 
 
 def top_names(data):
@@ -389,10 +592,37 @@ def top_names(data):
     return [k for k, _ in d[1]]
 
 
+def g_other(rng):
+    r = rng.random()
+    if r < 0.4:
+        return {"tree": acc_nodes(rng)}
+    if r < 0.8:
+        return {"tree": free_nodes(rng)}
+    return shape_nodes((rng.choice(["each", "attrs", "json", "keys_each", "assign_each", "push", "sort", "setkey",
+                                    "objassign"]),))
+
+
+def g_history(rng, tier, data, others, stateful):
+    """the renders that happen in the process between the first and the later renders of the pair: other
+    templates and the SAME template with OTHER data, each on any of the process' three engine instances"""
+    r = rng.random()
+    if stateful:
+        n = 0 if r < 0.1 else rng.randint(1, 4) if r < 0.78 else rng.randint(5, 12) if r < 0.95 else \
+            rng.randint(15, 25 if tier == "quick" else 60)
+    else:
+        n = 0 if (r < 0.3 or not others and r < 0.5) else rng.randint(1, 4) if r < 0.95 else rng.randint(5, 12)
+    hist = []
+    for _ in range(n):
+        name = "t" if (not others or rng.random() < (0.5 if stateful else 0.25)) else rng.choice(sorted(others))
+        pdata = data if rng.random() < (0.2 if stateful else 0.5) else g_data(rng, tier)
+        hist.append({"render": name, "data": pdata, "on": rng.randint(0, 2)})
+    return hist
+
+
 def g_case(rng, tier):
     data = g_data(rng, tier)
     r = rng.random()
-    if r < 0.72:
+    if r < 0.52:
         k = rng.choice(SHAPES)
         if k == "var":
             names = top_names(data)
@@ -402,30 +632,30 @@ def g_case(rng, tier):
             sh = ("var", x)
         else:
             sh = (k,)
-        nodes = shape_nodes(sh)
+        entry = shape_nodes(sh)
+    elif r < 0.80:
+        sh = ("acc",)
+        entry = {"tree": acc_nodes(rng)}
     else:
         sh = ("free",)
-        nodes = free_nodes(rng)
-    files = {"t": nodes}
-    # other templates for the prefix renders: mutation-heavy and key-caching ones over the same names
+        entry = {"tree": free_nodes(rng)}
+    if sh[0] in TREE_FAMILIES and rng.random() < 0.85:
+        data = lower_nested(data)
+    files = {"t": entry}
+    # other templates for the history renders: state-building, mutation-heavy and key-caching ones over the same names
     others = {}
     for i in range(rng.randint(0, 3)):
-        others["p%d" % i] = free_nodes(rng) if rng.random() < 0.7 else shape_nodes((rng.choice(
-            ["each", "attrs", "json", "keys_each", "assign_each", "push", "sort", "setkey", "objassign"]),))
-    prefix = []
-    for _ in range(rng.randint(0, 4) if others or rng.random() < 0.5 else 0):
-        name = rng.choice(sorted(others) + ["t"])
-        pdata = data if rng.random() < 0.5 else g_data(rng, tier)
-        prefix.append({"render": name, "data": pdata})
+        others["p%d" % i] = g_other(rng)
+    prefix = g_history(rng, tier, data, others, sh[0] in TREE_FAMILIES)
     files.update(others)
-    return {"shape": list(sh), "nodes": {n: v for n, v in files.items()}, "data": data, "prefix": prefix}
+    return {"shape": list(sh), "nodes": files, "data": data, "prefix": prefix}
 
 
-def to_harness(case, single):
-    return {"files": {hx(n): hx(ast(v)) for n, v in case["nodes"].items()}, "render": hx("t"),
-            "data": d_go(tuplify(case["data"])), "single": single,
-            "prefix": [] if single else [{"render": hx(p["render"]), "data": d_go(tuplify(p["data"]))}
-                                         for p in case["prefix"]]}
+def to_harness(case):
+    return {"files": {hx(n): hx(ast(tpl_ast(v))) for n, v in case["nodes"].items()}, "render": hx("t"),
+            "data": d_go(tuplify(case["data"])), "single": False, "fresh": FRESH_PROCESSES,
+            "prefix": [{"render": hx(p["render"]), "data": d_go(tuplify(p["data"])), "on": p.get("on", 2)}
+                       for p in case["prefix"]]}
 
 
 def tuplify(v):
@@ -500,8 +730,27 @@ def jsonable(v):
 
 
 def case_json(case):
-    return {"shape": case["shape"], "nodes": case["nodes"], "data": jsonable(tuplify(case["data"])),
-            "prefix": [{"render": p["render"], "data": jsonable(tuplify(p["data"]))} for p in case["prefix"]]}
+    c = {"shape": case["shape"], "nodes": case["nodes"], "data": jsonable(tuplify(case["data"])),
+         "prefix": [{"render": p["render"], "data": jsonable(tuplify(p["data"])), "on": p.get("on", 2)}
+                    for p in case["prefix"]]}
+    return json.loads(json.dumps(c))      # exactly what a replay file holds (tuples become lists)
+
+
+def shrink_tree(nodes):
+    """smaller pug trees: drop a top-level node, unwrap / thin out the body of an each or a conditional"""
+    for i in range(len(nodes)):
+        yield nodes[:i] + nodes[i + 1:]
+    for i, n in enumerate(nodes):
+        if n[0] == 'each':
+            body = n[4]
+            for j in range(len(body)):
+                if len(body) > 1:
+                    yield nodes[:i] + [list(n[:4]) + [body[:j] + body[j + 1:]]] + nodes[i + 1:]
+            for j, x in enumerate(body):
+                if x[0] == 'cond':
+                    yield nodes[:i] + [list(n[:4]) + [body[:j] + list(x[2]) + body[j + 1:]]] + nodes[i + 1:]
+        elif n[0] == 'cond':
+            yield nodes[:i] + list(n[2]) + nodes[i + 1:]
 
 
 class C07(Prop):
@@ -511,50 +760,75 @@ class C07(Prop):
     prop_module = "Props.C07"
     prop_file = "Props/C07.v"
     coq_targets = ["Props/C07.vo", "Run/Judge_C07.vo"]
-    sizes = {"quick": 320, "thorough": 6000}
-    shard = 200
+    sizes = {"quick": 300, "thorough": 5000}
+    shard = 100
     design_ref = "DESIGN.md section 6 C07, section 7 F-C05-c / F-C07-b"
-    rule = ("(template, data) pairs: 72% one of 12 modelled shapes (each k,v / &attributes / JSON.stringify / "
-            "Object.keys / for-in / top-level name / Object.keys then each / Object.assign into an ordered literal "
-            "then each / push / sort / x.k = v / Object.assign) and 28% free-form mutation-heavy statement lists "
-            "(push, pop, shift, unshift, sort, splice, slice, member assignment, Object.assign, $global, mixin "
-            "attributes) judged by the oracle alone; data built from Go map[string]interface{}, map[string]string, "
-            "map[string]int, map[int]string, []interface{}, []string, []int, structs, pointers to structs, slices "
-            "and maps, 0-48 keys (more than 8: several hash buckets), first-letter case collisions among keys "
-            "(Foo/foo, A/a, Key/key); each pair rendered 5 times in one process (twice on one engine, second "
-            "engine, third engine after 0-4 other renders incl. mutation-heavy ones on the same data, freshly built "
-            "equal data) and once in each of 3 fresh processes; non-trivial = the rendered map-like value has at "
-            "least 2 keys or the template mutates; distinct by SHA-1 of the case")
+    rule = ("(template, data) pairs. Templates: 52% one of 12 order-sensitive shapes modelled by Models/Purity.v (each k,v / "
+            "&attributes / JSON.stringify / Object.keys / for-in / top-level name / Object.keys then each / Object.assign "
+            "into an ordered literal then each / push / sort / x.k = v / Object.assign); 28% 'acc' = state built during "
+            "the render: an object or array created by a literal ({} / {zz: 1} / {a: 'x', k: 2} / Object.assign({}, o) / "
+            "[] / ['u']) is filled inside 1-2 each-loops over items / m / o / Object.keys(m) (acc[v] = true, acc[v] = k + '', "
+            "acc[k] = [v], acc[k] = v ? v : 0, acc['p' + v] = 1, acc.last = v, acc.push(v), acc.unshift(v), 25% under a "
+            "condition on v or k) and under a condition on the data, optionally "
+            "nested into a second literal, then enumerated (each k,v), serialised (JSON.stringify, String()), listed "
+            "(Object.keys / join / length) or read at keys the render may not have set (acc.zz, acc.flag, acc.a); 20% "
+            "'free' statement lists (push, pop, shift, unshift, sort, splice, slice, member and index assignment, "
+            "Object.assign, literals {} [] filled from the data, $global, variable shadowing, mixin attributes). acc and "
+            "free are pug trees judged by the oracle and predicted by the executor model (Pug.Compile + Tmpl.Exec). "
+            "Data: Go map[string]interface{}, map[string]string, map[string]int, map[int]string, []interface{}, "
+            "[]string, []int, structs, pointers to structs, slices and maps, 0-48 keys (more than 8: several hash "
+            "buckets), first-letter case collisions among keys (Foo/foo, A/a, Key/key). Every case runs in 4 processes "
+            "of its own (the harness re-executes itself per case: nothing is shared between cases, a replay is "
+            "self-contained): process 1 renders the pair 6 times - r0 as the first render of the process' life, r1 again "
+            "on the same engine, r2 on a second engine instance, then the HISTORY, r3 on a third engine, r4 with freshly "
+            "built equal data on the first engine, r5 on an engine created only then; processes 2-4 render the pair "
+            "exactly once. HISTORY = 0-60 renders (acc/free: 10% none, 68% 1-4, 17% 5-12, 5% 15-25 quick / 15-60 "
+            "thorough; shapes: 0-12) of the same template with OTHER data (acc/free: half of the entries, 80% of those "
+            "with fresh random data) or of 0-3 other templates (40% acc, 40% free, 20% shapes) over the same variable "
+            "names, each on a randomly chosen one of the three engine instances. non-trivial = acc / free / mutating "
+            "shape, or the rendered map-like value has at least 2 keys; distinct by SHA-1 of the case")
     trusted = [
         "the Go map iteration oracle pi of the theorems is an arbitrary function returning a permutation of the "
         "entries it is given (Section hypothesis perm_oracle); the runtime's real iteration orders are sampled by "
-        "the correspondence check (8 renders per case, 4 processes)",
-        "Template.execute / state.walk enter the history theorem as Section variables (new_exec, run_exec, output: "
-        "arbitrary functions of the template and the converted data); that Render reads nothing else is checked by "
-        "the correspondence renders after a prefix of other renders",
+        "the correspondence check (9 renders per case, 4 processes)",
+        "Template.execute / state.walk enter the history theorems as Section variables (new_exec, run_exec, output: "
+        "arbitrary functions of the template and the converted data ALONE); that a render reads nothing else - no "
+        "engine field, no package-level variable, pool or cache written by an earlier render in the process - is not "
+        "proved but checked by the correspondence renders: r0 (nothing rendered before in the process) and the three "
+        "single-render processes against r1..r5 (after renders of the same and other templates with the same and "
+        "other data on the same and other engine instances), on templates whose output exposes per-render state "
+        "(objects built from literals, $global, variables, mixin attributes)",
+        "the executor model Pug.Compile + Tmpl.Exec (shared with C01-C06) predicts the acc / free templates from the "
+        "template and the data alone; it starts every render from a heap holding only the converted data and an "
+        "empty $global, and every literal allocates a new heap cell",
         "reflect.DeepEqual against a second, independently built copy of the data is the harness's oracle for "
         "'input untouched'",
         "lowerFirst is modelled on an ASCII first byte (generators use ASCII first letters)",
+        "process isolation: the harness binary re-executes itself (os/exec) once per case and per single render",
     ]
-    assumptions = ["perm_oracle pi: every map range visits each entry exactly once, in some order"]
+    assumptions = ["perm_oracle pi: every map range visits each entry exactly once, in some order",
+                   "a render's execution state is a function of (template, converted data) - Section variables "
+                   "new_exec / run_exec / output of C07_history_independent, C07_engine_independent, "
+                   "C07_process_history_independent; sampled, not proved (see trusted)"]
+    not_yet_proved = [
+        "that the Go executor keeps no state between renders (package-level variables, pools, caches) is outside "
+        "the Coq development: the theorems quantify over an executor that is a function of template and data; the "
+        "correspondence check samples it with histories of up to 60 renders per case",
+        "concurrent renders (two goroutines rendering at the same time) are not part of this check",
+    ]
 
     def generate(self, rng, n, tier):
         return [case_json(g_case(rng, tier)) for _ in range(n)]
 
-    # one full run + FRESH_PROCESSES single-render runs, each a process of its own
+    # the harness gives every case processes of its own: 1 full sequence + FRESH_PROCESSES single renders
     def run(self, binary, cases, tmp, tier):
-        full = run_harness(binary, self.engine, [to_harness(c, False) for c in cases])
-        fresh = [run_harness(binary, self.engine, [to_harness(c, True) for c in cases])
-                 for _ in range(FRESH_PROCESSES)]
-        obss = []
-        for i, o in enumerate(full):
+        obss = run_harness(binary, self.engine, [to_harness(c) for c in cases])
+        for i, o in enumerate(obss):
             if o["load"] != "ok":
                 raise BuildError("generated template does not load (case %d)" % i,
                                  json.dumps(cases[i])[:3000] + "\n" + o.get("msg", ""))
-            o = dict(o)
-            o["fresh"] = [f[i]["r"][0] for f in fresh]
-            o["fresh_untouched"] = all(f[i]["untouched"] for f in fresh)
-            obss.append(o)
+            if len(o["r"]) != FULL_RENDERS or len(o["fresh"]) != FRESH_PROCESSES:
+                raise BuildError("harness returned %d+%d renders (case %d)" % (len(o["r"]), len(o["fresh"]), i), "")
         return obss
 
     @staticmethod
@@ -564,7 +838,10 @@ class C07(Prop):
     def emit(self, case, obs):
         outs = [cq_opt(cq_bytes(unhx(r["out"]))) if r["class"] == "ok" else b"None" for r in self.outs(obs)]
         untouched = obs["untouched"] and obs["prefix_untouched"] and obs["fresh_untouched"]
-        return (b"{| c_shape := " + shape_coq(tuple(case["shape"])) + b"; c_data := " + d_coq(tuplify(case["data"])) +
+        tree = tpl_tree(case["nodes"]["t"])
+        return (b"{| c_shape := " + shape_coq(tuple(case["shape"])) +
+                b"; c_tmpl := " + cq_opt(None if tree is None else cq_list([tmpl.pug_coq(n) for n in tree])) +
+                b"; c_data := " + d_coq(tuplify(case["data"])) +
                 b"; c_outs := " + cq_list(outs) + b"; c_untouched := " + cq_bool(untouched) + b" |}")
 
     def nontrivial(self, case, obs):
@@ -572,7 +849,7 @@ class C07(Prop):
         if d[0] == 'ptr':
             d = d[1]
         m = dict(d[1]).get("m")
-        if case["shape"][0] in ("free", "push", "sort", "setkey", "objassign", "assign_each"):
+        if case["shape"][0] in ("free", "acc", "push", "sort", "setkey", "objassign", "assign_each"):
             return True
         if m is None:
             return False
@@ -582,30 +859,47 @@ class C07(Prop):
 
     def sample(self, case, obs):
         outs = self.outs(obs)
-        return {"shape": case["shape"], "template": case["nodes"]["t"], "data": d_plain(tuplify(case["data"])),
-                "prefix_renders": [p["render"] for p in case["prefix"]],
+        return {"shape": case["shape"], "template": tpl_ast(case["nodes"]["t"]), "data": d_plain(tuplify(case["data"])),
+                "history": [{"render": p["render"], "engine": p.get("on", 2),
+                             "data": "same" if p["data"] == case["data"] else "other"} for p in case["prefix"]],
                 "go_outputs_distinct": len({(r["class"], r["out"]) for r in outs}), "renders": len(outs),
                 "go_output": unhx(outs[0]["out"]).decode("utf-8", "replace")[:300] if outs[0]["class"] == "ok" else outs[0]["class"],
                 "data_untouched": obs["untouched"] and obs["prefix_untouched"] and obs["fresh_untouched"]}
 
     def shrink(self, case):
-        # fewer prefix renders, fewer other templates, fewer top-level keys, fewer entries of m / o
-        for i in range(len(case["prefix"])):
+        # shorter history, fewer other templates, smaller template, fewer top-level keys, fewer entries of m / o
+        n = len(case["prefix"])
+        if n > 4:
+            for c_ in (case["prefix"][:n // 2], case["prefix"][n // 2:]):
+                c = dict(case)
+                c["prefix"] = c_
+                yield c
+        for i in range(n):
             c = dict(case)
             c["prefix"] = case["prefix"][:i] + case["prefix"][i + 1:]
             yield c
         used = {p["render"] for p in case["prefix"]} | {"t"}
-        for n in case["nodes"]:
-            if n not in used:
+        for n_ in case["nodes"]:
+            if n_ not in used:
                 c = dict(case)
-                c["nodes"] = {a: b_ for a, b_ in case["nodes"].items() if a != n}
+                c["nodes"] = {a: b_ for a, b_ in case["nodes"].items() if a != n_}
                 yield c
-        if case["shape"][0] == "free" and len(case["nodes"]["t"]) > 1:
-            for i in range(len(case["nodes"]["t"])):
-                c = dict(case)
-                c["nodes"] = dict(case["nodes"])
-                c["nodes"]["t"] = case["nodes"]["t"][:i] + case["nodes"]["t"][i + 1:]
-                yield c
+        for name in sorted(used):
+            entry = case["nodes"].get(name)
+            tree = tpl_tree(entry) if entry is not None else None
+            if tree is not None and len(tree) > 1:
+                for cand in shrink_tree(tree):
+                    c = dict(case)
+                    c["nodes"] = dict(case["nodes"])
+                    c["nodes"][name] = {"tree": cand}
+                    yield c
+            elif name == "t" and case["shape"][0] == "free" and entry is not None and len(entry) > 1:
+                for i in range(len(entry)):
+                    c = dict(case)
+                    c["nodes"] = dict(case["nodes"])
+                    c["nodes"]["t"] = entry[:i] + entry[i + 1:]
+                    yield c
+        # the data of a history render: the pair's own data instead of other data is simpler
         d = case["data"]
         inner = d[1] if d[0] == 'ptr' else d
         wrap = (lambda x: ['ptr', x]) if d[0] == 'ptr' else (lambda x: x)
@@ -630,14 +924,34 @@ class C07(Prop):
                     c = dict(case)
                     c["data"] = wrap(['map', top[:i] + [[k, [v[0], v[1][:j] + v[1][j + 1:]]]] + top[i + 1:]])
                     yield c
+        # smaller data in the history renders
+        for pi_, p in enumerate(case["prefix"]):
+            pd = p["data"]
+            if pd[0] != 'map':
+                continue
+            ptop = pd[1]
+            for i, (k, v) in enumerate(ptop):
+                cand = None
+                if k not in ("m", "o", "items"):
+                    cand = ptop[:i] + ptop[i + 1:]
+                elif v[0] in ('map', 'smap', 'imap', 'nmap', 'arr', 'strs', 'ints') and len(v[1]) > 1:
+                    cand = ptop[:i] + [[k, [v[0], v[1][:len(v[1]) // 2]]]] + ptop[i + 1:]
+                if cand is not None:
+                    c = dict(case)
+                    c["prefix"] = list(case["prefix"])
+                    c["prefix"][pi_] = dict(p, data=['map', cand])
+                    yield c
 
     def model_expr(self):
         return "(model07 c, oracle07 c, dom_data (c_data c), c_outs c)"
 
     def distribution(self, cases, obss):
         d = {"shape": {}, "m_kind": {}, "m_keys": {"0-1": 0, "2-8": 0, "9+": 0}, "data_kinds": {},
-             "with_prefix": 0, "prefix_renders": 0, "go_exec_error": 0, "first_letter_collisions": 0,
-             "renders_per_case": 5 + FRESH_PROCESSES, "fresh_processes": FRESH_PROCESSES}
+             "with_history": 0, "history_renders": 0, "history_len": {"0": 0, "1-4": 0, "5-12": 0, "13+": 0},
+             "history_same_template_other_data": 0, "history_other_engine": 0,
+             "state_building_templates_with_history_of_same_template_other_data": 0,
+             "go_exec_error": 0, "first_letter_collisions": 0,
+             "renders_per_case": FULL_RENDERS + FRESH_PROCESSES, "processes_per_case": 1 + FRESH_PROCESSES}
         for c, o in zip(cases, obss):
             d["shape"][c["shape"][0]] = d["shape"].get(c["shape"][0], 0) + 1
             data = tuplify(c["data"])
@@ -653,12 +967,18 @@ class C07(Prop):
                 d["m_keys"]["0-1" if n < 2 else "2-8" if n <= 8 else "9+"] += 1
                 if mm[0] in ('map', 'smap', 'imap'):
                     names = names + ["m." + k for k, _ in mm[1]]
-            low = [x[:-1] + x[-1:] for x in names]
             folded = [(x.rsplit(".", 1)[0] if "." in x else "", (x.rsplit(".", 1)[-1][:1].lower() + x.rsplit(".", 1)[-1][1:]))
                       for x in names]
             d["first_letter_collisions"] += len(folded) != len(set(folded))
-            d["with_prefix"] += bool(c["prefix"])
-            d["prefix_renders"] += len(c["prefix"])
+            h = c["prefix"]
+            d["with_history"] += bool(h)
+            d["history_renders"] += len(h)
+            d["history_len"]["0" if not h else "1-4" if len(h) <= 4 else "5-12" if len(h) <= 12 else "13+"] += 1
+            same_other = any(p["render"] == "t" and p["data"] != c["data"] for p in h)
+            d["history_same_template_other_data"] += same_other
+            d["history_other_engine"] += any(p.get("on", 2) != 2 for p in h)
+            d["state_building_templates_with_history_of_same_template_other_data"] += (
+                same_other and c["shape"][0] in TREE_FAMILIES)
             d["go_exec_error"] += any(r["class"] != "ok" for r in self.outs(o))
         return d
 
